@@ -231,6 +231,11 @@ def check_memory(ctx, bs, mult, scratch, case_ref, shape):
             want = sum(r.length for r in rows)
             if sink.n != len(b">x\n") + want + -(-want // 60):
                 ctx.violation("stream-size", f"{label}: wrote {sink.n} bytes for {want} residues", case)
+            # the same, unwrapped (one line per record): the consumer must still not accumulate
+            sink = Sink()
+            measure(label + "-unwrapped", lambda rows=rows, sink=sink: FastaStream(sink, fi, line_length=10**9).write_scaffold(Scaffold("x", rows)))
+            if sink.n != len(b">x\n") + want + 1:
+                ctx.violation("stream-size", f"{label} unwrapped: wrote {sink.n} bytes for {want} residues", case)
     finally:
         fi.fasta_fileandle.fh.close()
         p.unlink()
@@ -292,5 +297,6 @@ def gates(c, tier):
         "mem:stream-forward": 4,
         "mem:stream-reverse": 4,
         "mem:stream-gap": 4,
+        "mem:stream-forward-unwrapped": 4,
     }
     return [f"{k}>={v} (got {c.get(k, 0)})" for k, v in need.items() if c.get(k, 0) < v]
